@@ -23,13 +23,20 @@ RULE = ("Triangulated disks built by the harness: Delaunay triangulations of 4-4
         "a cotangent laplacian were evaluated on it (persistent 'cotan' / 'angles' corner attributes); all oracles are applied to "
         "the second result as well. Input coordinates are uniformly scaled by 1e-8 / 1e-6 / 1e-4 / 1 / 1e4 / 1e6 (the statement is invariant to the unit of the input); custom polygons may be integer-typed "
         "(numpy int64 array, radius ~1e6); the custom array argument is snapshotted and must be unchanged after run(). "
+        "A third stage (1-2 rounds in ~1/3 of the cases) deletes every mesh and worker, collects garbage and embeds a freshly built, "
+        "RELABELLED mesh with the same |V|,|E|,|F| (optionally obtained through mesh.copy), refilling the SAME custom_boundary array "
+        "object in place; the flat_mesh of the first worker is in part of the cases read only after a second worker ran on the same "
+        "mesh (other container); 2.5% of the disks have element counts of exactly 255/256/257 (vertices, faces, interior vertices, "
+        "border length); custom polygons include one within 1e-5 of the unit circle. "
         "Sub-check large_disks: jittered 34..44 x 34..44 grids with random diagonals and Delaunay triangulations of 1200-1900 "
         "jittered-grid points (> 1000 interior vertices, optional height field), same oracles and tolerances. "
         "Sub-check non_disk_rejected: triangulated spheres, tori, annuli, multi-loop and multi-component surfaces, connected sums "
-        "(chi != 1) x all targets x both storages. non-trivial (disk_embedding) = >=1 interior vertex and (an interior edge "
+        "(chi != 1) x all targets x both storages, plus (1/4 of the cases) triangulated disks and other surfaces with 1-2 UNREFERENCED "
+        "vertices (id 0, a middle id, the last id), where chi is V - E + F over all vertices as documented for euler_characteristic. non-trivial (disk_embedding) = >=1 interior vertex and (an interior edge "
         "joining two border vertices or a border length that is not a multiple of 4); non-trivial (non_disk_rejected) = chi != 1; "
         "non-trivial (large_disks) = > 1000 interior vertices; distinct = distinct realised case.")
-ASSUMPTIONS = ["input disks are oriented manifold triangulations (single border loop, one component, chi = 1) without unreferenced vertices; "
+ASSUMPTIONS = ["input disks are oriented manifold triangulations (single border loop, one component, chi = 1) without unreferenced vertices "
+               "(a disk plus unreferenced vertices has V - E + F != 1 by the library's documented definition and belongs to the rejection gate); "
                "default library configuration (sort_neighborhoods = True)",
                "cotangent weights are only requested on meshes with min angle >= 5 deg and max angle <= 170 deg (otherwise the case is "
                "run with uniform weights and without the cotangent / angle caching pre-step); the orientation oracle is strict only when every interior-edge weight (cot a + cot b)/2 is "
@@ -58,13 +65,16 @@ def _is_disk(ref):
     return loops is not None and len(loops) == 1 and ref.n_face_components() == 1 and ref.euler() == 1
 
 
-def convex_polygon(n, seed, scale, reverse, center):
+def convex_polygon(n, seed, scale, reverse, center, near_unit=False):
     """n points in strictly convex position: irregular angles (gap >= 0.25 x mean gap) on a rotated ellipse."""
     rnd = np.random.RandomState(seed)
     gaps = rnd.uniform(0.25, 1.0, n)
     ang = np.cumsum(gaps) / np.sum(gaps) * 2 * math.pi + rnd.uniform(0, 2 * math.pi)
     a, b = rnd.uniform(0.6, 1.6, 2)
     rot = rnd.uniform(0, 2 * math.pi)
+    if near_unit:
+        a = b = 1.000008          # within 1e-5 of the built-in circle target, but not it
+        rot = 0.0
     x, y = a * np.cos(ang), b * np.sin(ang)
     P = np.stack([math.cos(rot) * x - math.sin(rot) * y, math.sin(rot) * x + math.cos(rot) * y], axis=1)
     P = scale * (P + np.array(center))
@@ -82,9 +92,62 @@ def strictly_convex(P):
     return bool(len(P) >= 3 and (np.all(rel > 1e-7) or np.all(rel < -1e-7)))
 
 
+def delaunay_n(n, seed):
+    """Delaunay triangulation of exactly n jittered-grid points (all of them referenced), or None"""
+    from scipy.spatial import Delaunay
+    rnd = np.random.RandomState(seed)
+    k = int(math.ceil(math.sqrt(n))) + 1
+    cells = [(i, j) for i in range(k) for j in range(k)]
+    rnd.shuffle(cells)
+    P = np.array([[i + 0.5 + rnd.uniform(-0.3, 0.3), j + 0.5 + rnd.uniform(-0.3, 0.3)] for (i, j) in cells[:n]])
+    F = []
+    for t in Delaunay(P).simplices:
+        a, b, c = (P[int(x)] for x in t)
+        ar = (b[0] - a[0]) * (c[1] - a[1]) - (b[1] - a[1]) * (c[0] - a[0])
+        if abs(ar) > 1e-9:
+            F.append([int(t[0]), int(t[1]), int(t[2])] if ar > 0 else [int(t[0]), int(t[2]), int(t[1])])
+    r = SurfRef(n, F)
+    if len(set(v for f in F for v in f)) != n or r.validate() is not None or not _is_disk(r):
+        return None
+    return [[float(p[0]), float(p[1]), 0.0] for p in P], F
+
+
+def pow2_mesh(which, seed):
+    """element counts of exactly 255 / 256 / 257: vertices, faces, interior vertices, border length"""
+    rnd = np.random.RandomState(seed)
+    if which in (0, 1, 2):
+        n = 255 + which
+        r = delaunay_n(n, seed)
+        if r is not None:
+            return r[0], r[1], f"vertices={n}"
+        which = 3
+    if which == 3:
+        nu, nv, what = 8, 16, "faces=256"
+    elif which == 4:
+        nu, nv, what = 17, 17, "interior=256"
+    elif which == 5:
+        nu, nv, what = 2, 126, "border=256"
+    elif which == 6:
+        nu, nv, what = 2, 258, "interior=257"
+    else:
+        nu, nv, what = 15, 15, "vertices=256(grid)"
+    V, Q = G.grid(nu, nv)
+    F = []
+    for q in Q:
+        F += [[q[0], q[1], q[2]], [q[0], q[2], q[3]]] if rnd.randint(2) else [[q[0], q[1], q[3]], [q[1], q[2], q[3]]]
+    A = np.array(V, dtype=float)
+    A[:, :2] += rnd.uniform(-0.15, 0.15, (len(A), 2))
+    V, F, _ = G.relabel(A.tolist(), F, seed)
+    return V, [list(map(int, f)) for f in F], what
+
+
 @st.composite
 def disk_mesh(draw):
     src = draw(st.sampled_from(["delaunay", "wellshaped", "delaunay", "anygeom", "delaunay", "wellshaped", "delaunay"]))
+    r = draw(st.integers(0, 2 ** 20))
+    if r % 40 == 5:
+        V, F, what = pow2_mesh((r // 40) % 8, r // 320)
+        return {"V": V, "F": F, "tags": ["src=pow2", "base=pow2:" + what]}
     if src == "delaunay":
         size = draw(st.sampled_from([40, 25, 40, 120, 12, 40, 25, 40, 120, 400]))
         s = draw(G.delaunay_disks(max_pts=size, ear_removals=3))
@@ -116,6 +179,11 @@ def finish_case(draw, s):
     case["second_corners"] = (k2 // 100) % 2 == 0
     case["second_on"] = ["vertex-mesh", "corner-mesh"][(k2 // 200) % 2]
     case["second_pre"] = ["cotangent", "none", "angles", "cotan_laplacian"][(k2 // 400) % 4]
+    # third stage: drop every object, collect garbage, embed a RELABELLED mesh with the same element counts (1 or 2 times)
+    case["recycle"] = 0 if len(s["V"]) > 1000 else [0, 1, 2, 1][(k2 // 1600) % 4]
+    case["recycle_seed"] = k2 % 9973
+    case["recycle_copy"] = (k2 // 12800) % 2 == 1
+    case["lazy_flat"] = (k2 // 25600) % 2 == 1
     if G.min_angle_deg(s["V"], s["F"]) < 5.0 or G.max_angle_deg(s["V"], s["F"]) > 170.0:
         if case["cotan"] or case["second_cotan"]:
             case["tags"].append("forced-uniform")
@@ -128,9 +196,13 @@ def finish_case(draw, s):
     ref = SurfRef(len(s["V"]), s["F"])
     loops = ref.border_loops() or [[]]
     n = max(len(loops[0]) if len(loops) >= 1 else 0, 3)
-    pscale = draw(st.sampled_from([1.0, 1.0, 1e-3, 1e3, "int"]))
-    poly = convex_polygon(n, draw(st.integers(0, 10 ** 6)), 1e6 if pscale == "int" else pscale,
-                          draw(st.booleans()), [draw(st.sampled_from([0.0, 0.0, 3.0])), draw(st.sampled_from([0.0, -2.0]))])
+    pscale = [1.0, "int", 1e-3, 1.0, 1e3, "near-unit-circle"][(k2 // 6400) % 6]
+    if pscale == "near-unit-circle":
+        poly = convex_polygon(n, draw(st.integers(0, 10 ** 6)), 1.0, draw(st.booleans()), [0.0, 0.0], near_unit=True)
+    else:
+        poly = convex_polygon(n, draw(st.integers(0, 10 ** 6)), 1e6 if pscale == "int" else pscale,
+                              draw(st.booleans()), [draw(st.sampled_from([0.0, 0.0, 3.0])), draw(st.sampled_from([0.0, -2.0]))])
+    case["poly_kind"] = str(pscale)
     if pscale == "int":
         ip = [[int(round(x)), int(round(y))] for x, y in poly]
         if strictly_convex(ip):
@@ -189,10 +261,30 @@ def large_case(draw):
     return finish_case(draw, {"V": V, "F": F, "tags": ["src=large-" + kind, "base=large-" + kind]})
 
 
+def insert_isolated(V, F, positions):
+    """insert unreferenced vertices so that they get the given ids (ascending); face indices are shifted accordingly"""
+    V = [list(v) for v in V]
+    F = [list(f) for f in F]
+    for p in sorted(set(min(max(int(p), 0), len(V)) for p in positions)):
+        V.insert(p, [0.25 + 0.01 * p, -0.5, 0.125])
+        F = [[v + 1 if v >= p else v for v in f] for f in F]
+    return V, F
+
+
 @st.composite
 def reject_case(draw):
-    s = draw(G.surfaces(max_faces=60, triangulated=True))
     k = draw(st.integers(0, 2 ** 20))
+    if (k // 24) % 4 == 0:
+        # a triangulated DISK plus unreferenced vertices (id 0 / a middle id / the last id): V - E + F = 1 + their number
+        s = draw(disk_mesh())
+        s = {"V": s["V"], "F": s["F"], "tags": list(s["tags"])}
+        where = [[0], [len(s["V"])], [len(s["V"]) // 2], [0, len(s["V"])], [len(s["V"]) // 2, len(s["V"])]][(k // 72) % 5]
+    else:
+        s = draw(G.surfaces(max_faces=60, triangulated=True))
+        where = [[], [], [], [len(s["V"])], [0]][(k // 72) % 5]
+    if where:
+        V, F = insert_isolated(s["V"], s["F"], where)
+        s = {"V": V, "F": F, "tags": list(s["tags"]) + ["isolated-vertices=" + str(len(where))]}
     return {"V": s["V"], "F": [list(map(int, f)) for f in s["F"]], "tags": list(s["tags"]), "mode": ["square", "custom", "circle"][k % 3],
             "cotan": (k // 3) % 2 == 0, "corners": (k // 6) % 2 == 0, "bm_arg": ["circle", "square"][(k // 12) % 2]}
 
@@ -280,7 +372,7 @@ def config(case, prefix=""):
             "verbose": bool(case.get(prefix + "verbose", False))}
 
 
-def make(case, cfg, m, corners, loop, ctx):
+def make(case, cfg, m, corners, loop, ctx, reuse_cb=None):
     """construct the worker (not run). returns (worker, expected custom positions or None, custom array or None)"""
     from mouette.processing.parametrization import TutteEmbedding
     kw = dict(use_cotan=bool(cfg["cotan"]), verbose=bool(cfg.get("verbose", False)), save_on_corners=bool(corners))
@@ -295,6 +387,9 @@ def make(case, cfg, m, corners, loop, ctx):
                              f"mesh.boundary_vertices = {bnd} is not the set of border vertices {sorted(loop)}"):
                 return None, None, None
             cb, pos = custom_array(case, loop, bnd)
+            if reuse_cb is not None and reuse_cb.shape == cb.shape and reuse_cb.dtype == cb.dtype:
+                reuse_cb[:] = cb                 # the SAME argument object as in an earlier call, new content
+                cb = reuse_cb
         kw["custom_boundary"] = cb
         kw["boundary_mode"] = cfg.get("bm_arg", "circle")
     else:
@@ -358,12 +453,19 @@ def check_flat(t, m, ref, UV, V0, ctx, tag):
               f"{tag}: flat_mesh vertex {bad[0] if len(bad) else ''} = {P[bad[0]].tolist() if len(bad) else ''}, uv says "
               f"{exp[bad[0]].tolist() if len(bad) else ''} ({len(bad)} vertices differ)")
     ctx.check([tuple(ints(f)) for f in fm.faces] == [tuple(ints(f)) for f in m.faces], "flat_mesh", f"{tag}: flat_mesh faces differ from the mesh faces")
+    ctx.check(t.flat_mesh is fm, "flat_mesh", f"{tag}: a second read of flat_mesh returned another object")
     Vin = np.array([[float(x) for x in m.vertices[v]] for v in range(ref.nV)]).reshape(-1, 3)
     ctx.check(fm is not m and bool(np.all(Vin == np.asarray(V0, dtype=float))), "flat_mesh:input-moved",
               f"{tag}: building flat_mesh changed the coordinates of the input mesh")
 
 
 # ============================================================================================ rejection oracle
+
+def total_euler(ref):
+    """V - E + F over ALL vertices of the mesh (the library's documented definition), unreferenced ones included"""
+    used = set(v for f in ref.F for v in f)
+    return ref.euler() + (ref.nV - len(used))
+
 
 def expect_rejected(case, ref, corners, ctx, tag):
     m = surface_from(case["V"], case["F"])
@@ -377,13 +479,14 @@ def expect_rejected(case, ref, corners, ctx, tag):
     except Exception as e:
         where = innermost_mouette_frame(e.__traceback__)
         ctx.check(where is not None and where.endswith("tutte.py:run"), "reject:accidental",
-                  f"{tag}: chi = {ref.euler()} surface was not rejected by the documented test but failed with "
+                  f"{tag}: chi = {total_euler(ref)} surface was not rejected by the documented test but failed with "
                   f"{type(e).__name__}: {e} at {where}")
         ctx.check(not m.vertices.has_attribute("uv_coords") and not m.face_corners.has_attribute("uv_coords"), "reject:half-written",
                   f"{tag}: rejected run left an attribute 'uv_coords' on the mesh")
         return
-    ctx.fail("reject:accepted", f"{tag}: run() returned normally on a surface with Euler characteristic {ref.euler()} "
-                                f"({len(ref.border_loops() or [])} border loops, {ref.n_face_components()} components)")
+    ctx.fail("reject:accepted", f"{tag}: run() returned normally on a surface with Euler characteristic V-E+F = {total_euler(ref)} "
+                                f"({len(ref.border_loops() or [])} border loops, {ref.n_face_components()} components, "
+                                f"{ref.nV - len(set(v for f in ref.F for v in f))} unreferenced vertices)")
 
 
 def fn_reject(case, ctx):
@@ -395,11 +498,14 @@ def fn_reject(case, ctx):
         if not tg.startswith("op="):
             ctx.label(tg)
     ctx.label("mode=" + case["mode"], "corners=" + str(case["corners"]))
-    if ref.euler() == 1:
+    chi = total_euler(ref)
+    if chi == 1:
         ctx.discard("reject:chi=1")
         ctx.label("discarded:chi=1")
         return
-    ctx.label("chi=" + str(max(min(ref.euler(), 3), -3)))
+    ctx.label("chi=" + str(max(min(chi, 3), -3)))
+    if chi != ref.euler():
+        ctx.label("chi!=1-only-through-unreferenced-vertices" if ref.euler() == 1 else "unreferenced-vertices")
     ctx.nontrivial()
     expect_rejected(case, ref, case["corners"], ctx, "non-disk")
 
@@ -426,6 +532,8 @@ def fn_embed(case, ctx):
             ctx.label("discarded:not-a-disk")
             ctx.discard("embed:not-a-disk(chi=1)")
         return
+    if "custom" in (case["mode"], case["second_mode"]):
+        ctx.label("custom-polygon=" + str(case.get("poly_kind", "?")))
     if not strictly_convex(case["poly"]):
         raise AssertionError("generated custom polygon is not strictly convex")
 
@@ -450,12 +558,15 @@ def fn_embed(case, ctx):
     res = {}
     meshes = {}
     workers = {}
+    lazy_first = False
     for corners in (False, True):
         tag = "per-corner" if corners else "per-vertex"
         m = surface_from(V, F)
-        UV = run_once(case, cfg, m, corners, geo, ctx, tag, other_had=False)
+        lazy = bool(case.get("lazy_flat")) and corners == (case["second_on"] == "corner-mesh") and bool(case["second_corners"]) != corners
+        UV = run_once(case, cfg, m, corners, geo, ctx, tag, other_had=False, flat_now=not lazy)
         if UV is None:
             return
+        lazy_first = lazy_first or lazy
         res[corners] = UV
         meshes[corners] = m
         workers[corners] = cfg["_worker"]
@@ -504,12 +615,65 @@ def fn_embed(case, ctx):
         ctx.check(bool(np.all(again == res[corners])), "history:first-result-changed",
                   f"the {'per-corner' if corners else 'per-vertex'} result of the first run changed after a later, independent run "
                   f"({tag}): max difference {float(np.max(np.abs(again - res[corners]))):.3e}")
+    if lazy_first:
+        # A.run(); B.run() into the other container; only now A.flat_mesh is read for the first time
+        ctx.label("lazy-flat_mesh-after-second-run")
+        check_flat(workers[on_corner_mesh], m, ref, res[on_corner_mesh], V, ctx, "flat_mesh of the first worker, first read after the second run")
+
+    # ------------------------------------------------------------------ third stage: recycled addresses / same argument object with new content
+    rounds = int(case.get("recycle", 0))
+    ctx.label("recycle=" + str(rounds))
+    if not rounds:
+        return
+    import gc
+    from mouette.mesh.mesh import copy as mesh_copy
+    cb_obj = cfg.get("_cb") if cfg.get("_cb") is not None else cfg2.get("_cb")
+    for c in (cfg, cfg2):
+        for kk in ("_worker", "_cb"):
+            c.pop(kk, None)
+    del m, meshes, workers, other
+    gc.collect()
+    for r in range(rounds):
+        rnd = np.random.RandomState(int(case.get("recycle_seed", 0)) + 17 * r)
+        perm = rnd.permutation(nV)                      # perm[old] = new
+        V2 = [None] * nV
+        for o in range(nV):
+            V2[int(perm[o])] = V[o]
+        F2 = [[int(perm[v]) for v in f] for f in F]
+        F2 = [f[k:] + f[:k] for f, k in zip(F2, rnd.randint(0, 3, len(F2)))]
+        F2 = [F2[i] for i in rnd.permutation(len(F2))]
+        ref2 = SurfRef(nV, F2)
+        loop2 = ref2.border_loops()[0]
+        b2 = set(loop2)
+        cfgr = dict(cfg2 if r % 2 == 0 else cfg)
+        geo2 = {"V": V2, "F": F2, "ref": ref2, "loop": loop2, "interior": [v for v in range(nV) if v not in b2],
+                "chords": [e for e in ref2.uedges if e[0] in b2 and e[1] in b2 and not ref2.edge_on_border(*e)],
+                "W": cot_weights(V2, ref2) if cfgr["cotan"] else None}
+        mr = surface_from(V2, F2)
+        if case.get("recycle_copy"):
+            src_mesh = mr
+            ok, mr = ctx.call("mesh.copy", mesh_copy, src_mesh)
+            if not ok:
+                return
+            del src_mesh
+        cr = bool(case["second_corners"]) if r % 2 == 0 else not bool(case["second_corners"])
+        tagr = (f"stage 3 round {r}: fresh relabelled mesh with the same element counts ({'a mesh.copy, ' if case.get('recycle_copy') else ''}"
+                f"{cfgr['mode']}/{'cotan' if cfgr['cotan'] else 'uniform'}/{'corners' if cr else 'vertices'}) built after the earlier meshes and "
+                f"workers were deleted and garbage collected{', same custom_boundary array object refilled' if cb_obj is not None and cfgr['mode'] == 'custom' else ''}")
+        UVr = run_once(case, cfgr, mr, cr, geo2, ctx, tagr, other_had=False, reuse_cb=cb_obj)
+        if UVr is None:
+            return
+        if not check_embedding(cfgr, UVr, geo2, ctx, tagr):
+            return
+        cfgr.pop("_worker", None)
+        del mr, UVr
+        gc.collect()
 
 
-def run_once(case, cfg, m, corners, geo, ctx, tag, other_had):
+def run_once(case, cfg, m, corners, geo, ctx, tag, other_had, reuse_cb=None, flat_now=True):
     """build a worker on mesh m, run it, read the coordinates back (per vertex), check flat_mesh and untouched arguments"""
     ref, loop, V = geo["ref"], geo["loop"], geo["V"]
-    t, pos, cb = make(case, cfg, m, corners, loop, ctx)
+    t, pos, cb = make(case, cfg, m, corners, loop, ctx, reuse_cb=reuse_cb)
     if t is None:
         return None
     snap = None if cb is None else cb.copy()
@@ -522,9 +686,11 @@ def run_once(case, cfg, m, corners, geo, ctx, tag, other_had):
     UV = read_uvs(t, m, ref, corners, ctx, tag, other_had=other_had)
     if UV is None:
         return None
-    check_flat(t, m, ref, UV, V, ctx, tag)
+    if flat_now:
+        check_flat(t, m, ref, UV, V, ctx, tag)
     cfg["_pos"] = pos
     cfg["_worker"] = t
+    cfg["_cb"] = cb
     return UV
 
 
@@ -664,7 +830,7 @@ def self_test():
 
 
 SUBCHECKS = [
-    SubCheck("disk_embedding", embed_case(), fn_embed, quick=2400, thorough=8000),
+    SubCheck("disk_embedding", embed_case(), fn_embed, quick=2000, thorough=6000),
     SubCheck("non_disk_rejected", reject_case(), fn_reject, quick=600, thorough=2000),
     SubCheck("large_disks", large_case(), fn_embed, quick=16, thorough=12, watchdog=(180, 600)),
 ]
